@@ -90,3 +90,37 @@ def find_case(env, reg, q, text, v, kind, rx_rows, depth=100, spec=True, extra_d
 
 def norm_reply(r):
     return r[:2] if r and r[0] in (1, 2) else r
+
+
+LIM = (1 << 53) - 1
+
+
+def impl_compile(env, text):
+    """whole compiled structure, or error class + token index"""
+    try:
+        c = env.compile(text)
+        return [0] + gen.enc_segs(gen.ast_of_query(c)), c
+    except Exception as ex:
+        return wire.enc_exception(ex), None
+
+
+def compile_req(reg, text, lo=-LIM, hi=LIM):
+    return [2, lo, hi] + gen.enc_registry([e[:4] for e in reg]) + wire.enc_str(text)
+
+
+ALPH = list("$.[]()?@*,:'\"\\!=<>&|-+0123456789eE abct_\n\tufnrl") + [
+    "\U0001F600", "é", "true", "false", "null", "&&", "||", "==", "..", "length(", "count(", "match(", "value(", "search(",
+    "\\u0041", "\\uD83D\\uDE00", "$", "[?", "@.", "1.5", "-0", "01", "1e2", "0.0", "f0(", "TRUE", "Null", " ", "\r", "\\", "'", '"', "\\'", "!", "(", ")"]
+
+
+def mutate_text(rng, q, k=None):
+    q = list(q)
+    for _ in range(k or rng.randint(1, 2)):
+        op = rng.random(); pos = rng.randint(0, len(q))
+        if op < 0.35 and q: del q[min(pos, len(q) - 1)]
+        elif op < 0.7: q.insert(pos, rng.choice(ALPH))
+        elif op < 0.85 and q: q[min(pos, len(q) - 1)] = rng.choice(ALPH)
+        elif op < 0.93 and q: q.insert(pos, q[min(pos, len(q) - 1)])
+        elif len(q) > 1:
+            i = min(pos, len(q) - 2); q[i], q[i + 1] = q[i + 1], q[i]
+    return "".join(q)
